@@ -11,6 +11,8 @@ Decided:
   R3 subject_alt_names yields dNSName entries and 4- and 16-byte iPAddress entries (in byte order);
   R4 renew_certificate sleeps for the duration returned by schedule_renewal, then calls request_certificate.
 """
+import re
+
 from ..flow import arg_origins, origins
 from ..mir import op_const, op_local, try_edges
 from ..panic_allow import enumerate_reach
@@ -75,24 +77,8 @@ def check(ctx):
     ctx.require(R1, {"PrivateKey", "Certificate"} <= variants, "%s:%s" % (cfe.file, cfe.line),
                 "certificate_files_exists tests both the private key and the certificate file (%s)" % sorted(variants), ["certificate_files_exists", "scope"])
     ctx.require(R1, bool(cfe.calls_to("acmed::storage::check_files")), "%s:%s" % (cfe.file, cfe.line), "… through check_files", ["certificate_files_exists", "check_files"])
-    cf = prog.must_body("acmed::storage::check_files")
-    isf = cf.calls_to("std::path::Path::is_file")
-    ctx.floor(R1, "is_file test in check_files", len(isf), 1)
-    if isf:
-        from ..util import assigns_const_to
-        t, f = call_true_false_edges(cf, isf[0])
-        true_blocks = assigns_const_to(cf, 0, lambda c: c.get("bool") is True)
-        # `true` only after the loop: the next()->None edge
-        nx = [c for c in cf.calls_to("core::iter::traits::iterator::Iterator::next")]
-        none_edges = []
-        for c in nx:
-            for tt in try_edges(cf, [c.dest["l"]]):
-                none_edges += [(tt["bb"], tg) for tg in tt["err"]]
-        ok, hit = unreachable_without(cf, true_blocks, removed_edges=none_edges)
-        ctx.require(R1, ok and true_blocks and none_edges, "%s:%s" % (cf.file, cf.line), "check_files answers true only after every listed file was tested", ["check_files", "all-files"])
-        for (sbb, tg) in f:
-            r = cf.reachable([tg], removed_nodes=assigns_const_to(cf, 0, lambda c: c.get("bool") is False))
-            ctx.require(R1, not (set(cf.return_blocks()) & r), where(cf, sbb), "a path that is not a file makes check_files answer false", ["check_files", "missing-file"])
+    from .storage_common import check_files_rules
+    check_files_rules(ctx, R1)
     # direction of the difference
     hb = prog.must_body(CERT + "::has_missing_identifiers")
     diffs = hb.calls_to("std::collections::hash::set::HashSet::difference")
@@ -114,7 +100,24 @@ def check(ctx):
             if ("acmed::identifier::Identifier", "value") in reads:
                 ctx.ok(R1, "required names = identifiers[].value (%s)" % g.rsplit("::", 1)[1])
     sr = origins(hb, {"l": 0, "p": []})
-    ctx.require(R1, sr.via_any("binop:Ne") or sr.via_any("binop:Gt"), "%s:%s" % (hb.file, hb.line), "has_missing_identifiers = (difference count != 0)", [CERT + "::has_missing_identifiers", "result"])
+    DIFF = "std::collections::hash::set::HashSet::difference"
+    data_form = (sr.via_any("binop:Ne") or sr.via_any("binop:Gt")) and (sr.via_any(DIFF) or any(x.is_(DIFF) for x in sr.calls))
+    ctl_form = False
+    if not data_form:
+        # `if uncovered.is_empty() { return false } ... true`: constants selected by an emptiness test of the difference
+        from ..util import assigns_const_to
+        tb = assigns_const_to(hb, 0, lambda c: c.get("bool") is True)
+        fb = assigns_const_to(hb, 0, lambda c: c.get("bool") is False)
+        for c in hb.calls:
+            if c.bb in hb.live_blocks() and (c.name or "").rsplit("::", 1)[-1] == "is_empty":
+                a = arg_origins(c, 0)
+                if not (a.via_any(DIFF) or any(x.is_(DIFF) for x in a.calls)):
+                    continue
+                t, f = call_true_false_edges(hb, c)
+                ok_t, _h = unreachable_without(hb, tb, removed_edges=f)
+                ok_f, _h = unreachable_without(hb, fb, removed_edges=t)
+                ctl_form = bool(tb) and bool(fb) and bool(t) and ok_t and ok_f
+    ctx.require(R1, data_form or ctl_form, "%s:%s" % (hb.file, hb.line), "has_missing_identifiers is true exactly when the difference is not empty", [CERT + "::has_missing_identifiers", "result"])
 
     # ------------------------------------------------------------------ R2
     R2 = ctx.rule("R2", "no undischarged panic/overflow in the expiry computation; saturating Duration arithmetic in the right order; time difference = not_after - now, clamped at 0")
@@ -168,32 +171,58 @@ def check(ctx):
                                     guards.append((sbb, f if neg else t))
                 ok, hit = unreachable_without(eb, [i], removed_edges=guards)
                 ctx.require(R2, ok and guards, where(eb, i), "a signed difference is converted to unsigned only when it is positive (clamped at 0 otherwise)", ["X509Certificate::expires_in", "negative-clamp"])
+    # the seconds given to Duration::from_secs: a negative difference becomes 0 by one of the clamping idioms (guarded cast, checked
+    # conversion with a zero default, max(0)); sign-discarding conversions (abs, unsigned_abs, wrapping, negation) are not accepted
+    fs = eb.calls_to("core::time::Duration::from_secs")
+    ctx.floor(R2, "Duration::from_secs in expires_in", len(fs), 1)
+    for c in fs:
+        sl = arg_origins(c, 0)
+        bad = sorted(v for v in sl.via if v.rsplit("::", 1)[-1] in ("unsigned_abs", "abs", "wrapping_abs", "saturating_abs", "checked_abs", "neg", "wrapping_neg", "rem_euclid", "abs_diff",
+                                                                    "wrapping_sub", "wrapping_add", "wrapping_mul") or v == "unop:Neg")
+        guarded_cast = any(st["s"] == "assign" and st["rv"]["k"] == "cast" and st["rv"]["ck"] == "IntToInt" and st["lhs"]["l"] in sl.locals
+                           for i in eb.live_blocks() for st in eb.blocks[i]["stmts"])
+        checked = any(v.endswith("::try_from") or v.endswith("::try_into") for v in sl.via) and any(v.rsplit("::", 1)[-1] in ("unwrap_or", "unwrap_or_default") for v in sl.via)
+        if checked and any(v.endswith("::unwrap_or") for v in sl.via):
+            checked = any(cc.get("int") == 0 for cc in sl.consts)
+        maxed = any(v.rsplit("::", 1)[-1] in ("max", "clamp") for v in sl.via) and any(cc.get("int") == 0 for cc in sl.consts)
+        ctx.require(R2, not bad and (guarded_cast or checked or maxed), c.where(),
+                    "the remaining seconds are the signed difference clamped at 0 (sign-discarding steps: %s; idiom: %s)" % (bad, "cast" if guarded_cast else "checked" if checked else "max" if maxed else "none"),
+                    ["X509Certificate::expires_in", "negative-clamp"])
+        ctx.require(R2, sl.via_any("openssl::asn1::Asn1TimeRef::diff") or any(x.is_("openssl::asn1::Asn1TimeRef::diff") for x in sl.calls), c.where(), "… of now.diff(not_after)",
+                    ["X509Certificate::expires_in", "seconds-source"])
     # ------------------------------------------------------------------ R3
     R3 = ctx.rule("R3", "subject_alt_names returns dNSName entries and 4-/16-byte iPAddress entries")
     sb = prog.must_body("acme_common::crypto::openssl_certificate::X509Certificate::subject_alt_names")
-    clos = [x for x in prog.children(sb.key) if x.calls_to("openssl::x509::GeneralNameRef::ipaddress") and
-            any(x.term(i)["t"] == "switch" and x.term(i)["dty"] == "usize" for i in x.live_blocks())]
-    ctx.floor(R3, "closure of subject_alt_names converting an entry to text", len(clos), 1)
-    for cb in clos:
-        ctx.require(R3, bool(cb.calls_to("openssl::x509::GeneralNameRef::dnsname")) and bool(cb.calls_to("openssl::x509::GeneralNameRef::ipaddress")),
-                    "%s:%s" % (cb.file, cb.line), "dnsname() and ipaddress() are both consulted", ["subject_alt_names", "kinds"])
-        lens = set()
-        for i in cb.live_blocks():
-            t = cb.term(i)
-            if t["t"] == "switch" and t["dty"] == "usize":
-                for v, tg in t["arms"]:
-                    lens.add(v)
-        ctx.require(R3, {4, 16} <= lens, "%s:%s" % (cb.file, cb.line), "iPAddress entries of 4 and 16 bytes are handled (lengths matched: %s)" % sorted(lens), ["subject_alt_names", "ip-lengths"])
-        for i, st in [(i, st) for i in cb.live_blocks() for st in cb.blocks[i]["stmts"] if st["s"] == "assign" and st["rv"]["k"] == "agg" and st["rv"].get("agg") == "array"]:
-            n = len(st["rv"]["ops"])
-            if n not in (4, 16):
-                continue
-            order = []
-            for o in st["rv"]["ops"]:
-                sl = origins(cb, o)
-                ints = sorted({c.get("int") for c in sl.consts if "int" in c})
-                order.append(ints[0] if len(ints) == 1 else None)
-            ctx.require(R3, order == list(range(n)), where(cb, i), "the %d address bytes are taken in order 0..%d (%s)" % (n, n - 1, order), ["subject_alt_names", "byte-order", str(n)])
+    from .guards import body_family
+    fam = body_family(prog, sb.key)          # the function, the closures it hands to iterator adaptors, helpers inlined
+    dn = [c for fb in fam for c in fb.calls_to("openssl::x509::GeneralNameRef::dnsname")]
+    ipa = [c for fb in fam for c in fb.calls_to("openssl::x509::GeneralNameRef::ipaddress")]
+    ctx.floor(R3, "GeneralName accessors used by subject_alt_names", len(dn) + len(ipa), 2)
+    ctx.require(R3, bool(dn) and bool(ipa), "%s:%s" % (sb.file, sb.line), "dnsname() and ipaddress() are both consulted", ["subject_alt_names", "kinds"])
+    conv = {}
+    for fb in fam:
+        for c in fb.calls:
+            m = re.match(r"^<core::net::ip_addr::IpAddr as core::convert::From<\[u8; (\d+)\]>>::from$", c.res or c.name or "")
+            if m and c.bb in fb.live_blocks():
+                conv.setdefault(int(m.group(1)), []).append(c)
+    ctx.require(R3, {4, 16} <= set(conv), "%s:%s" % (sb.file, sb.line), "iPAddress entries of 4 and 16 bytes are converted with IpAddr::from([u8; 4]) / IpAddr::from([u8; 16]) (found %s)" % sorted(conv),
+                ["subject_alt_names", "ip-lengths"])
+    for n, cs_ in sorted(conv.items()):
+        for c in cs_:
+            a = arg_origins(c, 0)
+            ctx.require(R3, any(x.bb == y.bb for x in a.calls for y in ipa if x.body is y.body) or a.via_any("openssl::x509::GeneralNameRef::ipaddress"), c.where(),
+                        "the %d bytes converted are the entry's ipaddress()" % n, ["subject_alt_names", "ip-source", str(n)])
+            cb = c.body
+            # when the array is assembled element by element, the bytes are taken in order (a library conversion such as
+            # <[u8; N]>::try_from(slice) keeps the order by contract)
+            for i, st in [(i, st) for i in cb.live_blocks() for st in cb.blocks[i]["stmts"] if st["s"] == "assign" and st["rv"]["k"] == "agg" and st["rv"].get("agg") == "array"
+                          and st["lhs"]["l"] in a.locals and len(st["rv"]["ops"]) == n]:
+                order = []
+                for o in st["rv"]["ops"]:
+                    sl = origins(cb, o)
+                    ints = sorted({c_.get("int") for c_ in sl.consts if "int" in c_})
+                    order.append(ints[0] if len(ints) == 1 else None)
+                ctx.require(R3, order == list(range(n)), where(cb, i), "the %d address bytes are taken in order 0..%d (%s)" % (n, n - 1, order), ["subject_alt_names", "byte-order", str(n)])
     # ------------------------------------------------------------------ R4
     R4 = ctx.rule("R4", "renew_certificate sleeps for the scheduled duration and then requests the certificate")
     rc = prog.async_body("acmed::main_event_loop::renew_certificate")
